@@ -306,13 +306,13 @@ func (d *DynTypes) ofResult(fn *ssa.Function, idx int, excl bool, depth int) Typ
 			out.Top = true
 			continue
 		}
-		if excl && ei >= 0 && ei < len(ret.Results) && d.m.ProvablyNonNilError(ret.Results[ei], ret.Block()) {
+		if excl && ei >= 0 && ei < len(ret.Results) && d.m.ProvablyNonNilError(RetVal(ret, ei), ret.Block()) {
 			continue
 		}
 		// pass-through `return f(x)`: the caller's error is the callee's error, so the exclusion carries over
 		if excl && ei >= 0 && ei < len(ret.Results) && ei != idx {
-			if e0, ok := ret.Results[idx].(*ssa.Extract); ok {
-				if e1, ok := ret.Results[ei].(*ssa.Extract); ok && e0.Tuple == e1.Tuple {
+			if e0, ok := RetVal(ret, idx).(*ssa.Extract); ok {
+				if e1, ok := RetVal(ret, ei).(*ssa.Extract); ok && e0.Tuple == e1.Tuple {
 					if call, ok := e0.Tuple.(*ssa.Call); ok && e1.Index == ErrorResultIndex(call.Call.Signature()) {
 						if cs := d.m.Callees(&call.Call); len(cs) > 0 {
 							for _, callee := range cs {
@@ -324,7 +324,7 @@ func (d *DynTypes) ofResult(fn *ssa.Function, idx int, excl bool, depth int) Typ
 				}
 			}
 		}
-		out.union(d.of(ret.Results[idx], ret.Block(), depth+1))
+		out.union(d.of(RetVal(ret, idx), ret.Block(), depth+1))
 	}
 	cp := out
 	d.summary[k] = &cp
@@ -362,12 +362,12 @@ func (m *Module) provablyNonNil(v ssa.Value, b *ssa.BasicBlock, depth int) bool 
 			rets := ReturnsOf(cs[0])
 			all := len(rets) > 0
 			for _, r := range rets {
-				if m.provablyNonNil(r.Results[0], r.Block(), depth+1) {
+				if m.provablyNonNil(RetVal(r, 0), r.Block(), depth+1) {
 					continue
 				}
 				okParam := false
 				for i, p := range cs[0].Params {
-					if r.Results[0] == ssa.Value(p) && i < len(x.Call.Args) && m.provablyNonNil(x.Call.Args[i], b, depth+1) {
+					if RetVal(r, 0) == ssa.Value(p) && i < len(x.Call.Args) && m.provablyNonNil(x.Call.Args[i], b, depth+1) {
 						okParam = true
 					}
 				}
